@@ -1,5 +1,6 @@
 (** C20 — Status controllers and operator converge to the true aggregate.
-    Statements only; proofs are in Proofs/StatusAgg.v and Proofs/Operator.v.
+    Statements only; proofs are in Proofs/StatusAgg.v, Proofs/StatusAggWorld.v
+    and Proofs/Operator.v.
     Models: Model/StatusAgg.v (pod-group and queue controllers),
     Model/Operator.v (operator Deploy); declarative side: Model/StatusAggSpec.v.
 
@@ -13,10 +14,22 @@
     it exactly when a preemptible group's previous value was already empty
     ([C20_podgroup_sums_v0_exact]).  Should the code go back to the old rule,
     the correspondence check (Run/C20.v) reports the model mismatch and the
-    monitor reports the stale status on the flip histories. *)
+    monitor reports the stale status on the flip histories.
+
+    The queue controller writes through an unconditional status patch, i.e. a
+    difference in ANY of allocated / allocatedNonPreemptible / requested /
+    childQueues reaches the store; the compared fields are explicit in
+    [qfields] (switch [q_detector] = [cmp_all]).  For histories of both
+    controllers on one store ([world], [w_run]) a write-free full pass implies
+    the truth recomputed from pods and current preemptibility in all four
+    fields ([C20_queue_fixpoint_is_truth]); every field is needed
+    ([C20_queue_detector_needs_every_field]) and the named variant that
+    ignores allocatedNonPreemptible is refuted by a flip history
+    ([C20_queue_detector_without_anp_refuted], [C20_queue_flip_history_witness]).
+    Proofs of this part: Proofs/StatusAggWorld.v. *)
 From Coq Require Import List ZArith PArith Bool.
 From KaiV Require Import Model.StatusAgg Model.StatusAggSpec Model.Operator
-  Proofs.StatusAgg Proofs.Operator.
+  Proofs.StatusAgg Proofs.StatusAggWorld Proofs.Operator.
 Import ListNotations.
 
 (** * Clause 1: pod-group status = sums over pods by phase and CURRENT preemptibility *)
@@ -123,6 +136,126 @@ Theorem C20_queue_fixpoint_unique :
     forall q, In q (c_queues c) -> q_status q = true_agg c (q_name q).
 Proof. exact queue_fixpoint_unique. Qed.
 Print Assumptions C20_queue_fixpoint_unique.
+
+(** ** When the queue controller writes: every field counts
+
+    QueueReconciler.Reconcile sends the merge patch of the recomputed status
+    unconditionally, so a difference in ANY of the four fields (allocated,
+    allocatedNonPreemptible, requested, childQueues) reaches the store.  The
+    fields a change detection in front of the patch compares are explicit in
+    [qfields]; [q_detector] is what the current tree does. *)
+
+(** the explicit detector of the current tree compares all four fields and is
+    the unconditional patch *)
+Theorem C20_queue_detector_is_unconditional_patch :
+  q_detector = {| cmp_alloc := true; cmp_anp := true; cmp_req := true; cmp_children := true |}
+  /\ (forall n c, q_reconcile_with q_detector n c = q_reconcile n c)
+  /\ (forall n c, q_writes_with q_detector n c = q_writes n c).
+Proof. exact detector_is_unconditional_patch. Qed.
+Print Assumptions C20_queue_detector_is_unconditional_patch.
+
+(** queue controller alone, pod-group statuses as stored: when a pass that
+    reconciles every queue (any order, repeats allowed) writes nothing, every
+    queue's stored status equals the sum over all pod groups of its subtree in
+    all three resource lists, and its childQueues list its children *)
+Theorem C20_queue_pass_quiet_is_truth :
+  forall (c : cluster) (pass : list positive),
+    wf_forest (c_queues c) = true ->
+    full_pass (c_queues c) pass ->
+    q_pass_writes q_detector pass c = false ->
+    forall q, In q (c_queues c) ->
+      s_alloc (q_status q) = s_alloc (true_agg c (q_name q))
+      /\ s_anp (q_status q) = s_anp (true_agg c (q_name q))
+      /\ s_req (q_status q) = s_req (true_agg c (q_name q))
+      /\ q_children q = child_names (q_name q) (c_queues c).
+Proof.
+  intros c pass Hwf Hfull Hq q Hin.
+  destruct (queue_pass_quiet_is_truth c pass Hwf Hfull Hq q Hin) as [Hst Hch].
+  rewrite Hst. repeat split. exact Hch.
+Qed.
+Print Assumptions C20_queue_pass_quiet_is_truth.
+
+(** both controllers on one store: for every initial store (any stored
+    statuses), every forest and every history of changes (preemptibility flips
+    by spec or by priority class, pods, spec.queue, re-parenting, queues created
+    and deleted) and reconciles in any order: when a full reconcile pass (every
+    pod group and every queue at least once) writes nothing and fails nowhere,
+    every queue's FOUR aggregates equal the truth recomputed from the pods by
+    phase and the CURRENT preemptibility of every pod group of its subtree *)
+Theorem C20_queue_fixpoint_is_truth :
+  forall (w0 : world) (h pass : list wevent),
+    let w := w_run h w0 in
+    wf_forest (w_queues w) = true ->
+    w_full_pass w pass ->
+    w_pass_quiet pass w = true ->
+    forall q, In q (w_queues w) ->
+      s_alloc (q_status q) = s_alloc (w_truth w (q_name q))
+      /\ s_anp (q_status q) = s_anp (w_truth w (q_name q))
+      /\ s_req (q_status q) = s_req (w_truth w (q_name q))
+      /\ q_children q = child_names (q_name q) (w_queues w).
+Proof. exact world_fixpoint_is_truth. Qed.
+Print Assumptions C20_queue_fixpoint_is_truth.
+
+(** the form the monitor uses: as long as some queue reports a stale field,
+    every full reconcile pass contains a reconcile that writes (or fails) *)
+Theorem C20_queue_stale_forces_write :
+  forall (w0 : world) (h pass : list wevent),
+    let w := w_run h w0 in
+    wf_forest (w_queues w) = true ->
+    w_full_pass w pass ->
+    (exists q, In q (w_queues w) /\ ~ queue_reports_truth w q) ->
+    w_pass_quiet pass w = false.
+Proof. exact world_stale_forces_write. Qed.
+Print Assumptions C20_queue_stale_forces_write.
+
+(** EVERY field is needed: a change detection in front of the patch makes
+    "write-free full pass implies truth" hold for all forests iff it compares
+    allocated, allocatedNonPreemptible, requested and childQueues *)
+Theorem C20_queue_detector_needs_every_field :
+  forall fs : qfields,
+    (forall (c : cluster) (pass : list positive),
+       wf_forest (c_queues c) = true -> full_pass (c_queues c) pass ->
+       q_pass_writes fs pass c = false ->
+       forall q, In q (c_queues c) ->
+         q_status q = true_agg c (q_name q) /\ q_children q = child_names (q_name q) (c_queues c))
+    <-> fs = cmp_all.
+Proof. exact detector_needs_every_field. Qed.
+Print Assumptions C20_queue_detector_needs_every_field.
+
+(** the detector that ignores AllocatedNonPreemptible ([cmp_without_anp]:
+    compares childQueues, allocated, requested) has a history after which a full
+    pass is write-free while a queue reports a stale AllocatedNonPreemptible *)
+Theorem C20_queue_detector_without_anp_refuted :
+  exists (w0 : world) (h pass : list wevent),
+    let w := w_run_with anp_rule cmp_without_anp h w0 in
+    wf_forest (w_queues w) = true /\ w_full_pass w pass
+    /\ w_pass_quiet_with anp_rule cmp_without_anp pass w = true
+    /\ exists q, In q (w_queues w) /\ s_anp (q_status q) <> s_anp (w_truth w (q_name q)).
+Proof. exact detector_without_anp_refuted. Qed.
+Print Assumptions C20_queue_detector_without_anp_refuted.
+
+(** the witness as a history (vm_compute): team under dept, a non-preemptible
+    group with one Running pod, reconciled; spec.preemptibility flipped to
+    preemptible with no other change; pod group, queue and ancestor reconciled
+    bottom-up, top-down and again.  Ignoring AllocatedNonPreemptible: the pod
+    group is corrected, both queues keep [1000; 0; 2000] although the truth is
+    empty, and a further full pass writes nothing.  Under the current model the
+    same history ends in the truth and the further pass is quiet as well (the
+    hypotheses of C20_queue_fixpoint_is_truth are met) *)
+Theorem C20_queue_flip_history_witness :
+  let w := w_run_with anp_rule cmp_without_anp ex_flip_history ex_world0 in
+  wf_forest (w_queues w) = true
+  /\ w_full_pass w ex_world_pass
+  /\ w_pass_quiet_with anp_rule cmp_without_anp ex_world_pass w = true
+  /\ map (fun g => s_anp (g_status (wg_pg g))) (w_groups w) = [[]]
+  /\ map (fun q => s_anp (q_status q)) (w_queues w) = [[1000; 0; 2000]; [1000; 0; 2000]]%Z
+  /\ map (fun q => s_anp (w_truth w (q_name q))) (w_queues w) = [[]; []]
+  /\ (let w' := w_run ex_flip_history ex_world0 in
+      map (fun q => s_anp (q_status q)) (w_queues w') = [[]; []]
+      /\ map (fun q => s_anp (w_truth w' (q_name q))) (w_queues w') = [[]; []]
+      /\ w_pass_quiet ex_world_pass w' = true).
+Proof. exact detector_without_anp_stale. Qed.
+Print Assumptions C20_queue_flip_history_witness.
 
 (** * Clause 3: a second reconcile writes nothing *)
 
